@@ -260,3 +260,96 @@ theorem insertBefore_same_merged {f : Forest} {q : Nat} {vq : Value} {l' : List 
       simp [join, Keep.resident, hak, a']
 
 end XotModel
+
+namespace XotModel
+open HTree Spec
+
+/-- **insert_before**: all geometries. -/
+theorem insertBefore_spec {f : Forest} {ref c : Nat} (inv : f.Inv) (norm : f.Normal)
+    (hok : (f.insertBefore ref c).2 = .ok) :
+    (f.insertBefore ref c).1 = specMove (Keep.resident c) (.before ref) c f := by
+  by_cases hfar : f.parent? c ≠ f.parent? ref
+  · exact insertBefore_spec_far inv norm hfar hok
+  have hsamepar : f.parent? c = f.parent? ref := Classical.not_not.1 hfar
+  have nd := inv.nodup
+  have hsc : f.structureCheck (f.parent? ref) c = true := by
+    cases h : f.structureCheck (f.parent? ref) c with
+    | true => rfl
+    | false => rw [insertBefore_unfold] at hok; simp [h] at hok
+  have hsr : f.siblingReferenceCheck ref c = true := by
+    cases h : f.siblingReferenceCheck ref c with
+    | true => rfl
+    | false => rw [insertBefore_unfold] at hok; simp [hsc, h] at hok
+  obtain ⟨q, vq, A, kr, B, t, sq, ekr, hkrn, hrc, hgc, hqt, hnorm, hndoc, hvq⟩ := sibling_checks_unpack nd hsc hsr
+  subst ekr
+  have htc : t.handle = c := (findList?_some f.roots t hgc).1
+  have hprev : f.prevSibling kr.handle = prevOf A kr := Forest.prevSibling_of_ctx sq.ctx
+  have hparref : f.parent? kr.handle = some q := Forest.parent?_of_ctx sq.ctx
+  have hoccIff := occupied_before sq hgc hnorm hkrn
+  by_cases hsame : prevOf A kr = some c
+  · have hocc := hoccIff.2 hsame
+    rw [insertBefore_unfold]
+    unfold specMove
+    simp [hsc, hsr, hprev, hsame, hocc]
+  · have hocc : Dest.occupiedBy f c (.before kr.handle) = false := by
+      cases h : Dest.occupiedBy f c (.before kr.handle) with
+      | false => rfl
+      | true => exact absurd (hoccIff.1 h) hsame
+    rw [insertBefore_unfold]
+    simp only [hsc, hsr, hprev, Bool.not_true, Bool.false_eq_true, if_false, beq_iff_eq, hsame]
+    rw [hparref] at hsamepar
+    cases hctx : f.ctx? c with
+    | none => rw [Forest.parent?_of_no_ctx hctx] at hsamepar; cases hsamepar
+    | some cx =>
+      obtain ⟨e0, vo, so⟩ := SiteAt.of_ctx nd hctx
+      have hself : cx.self = t := by
+        have := Forest.get?_of_ctx nd hctx
+        rw [hgc] at this
+        exact (Option.some.inj this).symm
+      obtain ⟨po, l, k, r⟩ := cx
+      simp only at e0 so hself
+      subst hself
+      subst htc
+      have hpo : po = q := by
+        rw [Forest.parent?_of_ctx hctx] at hsamepar
+        exact Option.some.inj hsamepar
+      subst hpo
+      have hlists : vo = vq ∧ A ++ kr :: B = l ++ k :: r := by
+        have := so.kids
+        rw [sq.kids] at this
+        have := Option.some.inj this
+        injection this with _ e2 e3
+        exact ⟨e2.symm, e3⟩
+      obtain ⟨ev, hAB⟩ := hlists
+      subst ev
+      rw [Forest.prevSibling_of_ctx hctx, Forest.nextSibling_of_ctx hctx]
+      simp only
+      have hold := old_stage inv norm so
+      generalize hres : f.removeConsolidate (prevOf l k) (nextOf r k) = res at hold
+      cases hold with
+      | same hseam =>
+        exact insertBefore_same_nomerge inv norm so hAB hrc hkrn hnorm hseam hsame hocc
+      | merged l' a b r' x y hc el er hx hy hp hn ht =>
+        subst el er
+        have so' : SiteAt f po vo ((l' ++ [a]) ++ k :: b :: r') := so
+        exact insertBefore_same_merged inv norm so' hc hx hy ht hAB hrc hkrn hnorm hsame hocc
+
+theorem insertBefore_content {f : Forest} {ref c : Nat} (inv : f.Inv) (norm : f.Normal)
+    (hok : (f.insertBefore ref c).2 = .ok) :
+    (f.insertBefore ref c).1.content = (specMove Keep.earlier (.before ref) c f).content := by
+  rw [insertBefore_spec inv norm hok]
+  have nd := inv.nodup
+  have hsc : f.structureCheck (f.parent? ref) c = true := by
+    cases h : f.structureCheck (f.parent? ref) c with
+    | true => rfl
+    | false => rw [insertBefore_unfold] at hok; simp [h] at hok
+  have hsr : f.siblingReferenceCheck ref c = true := by
+    cases h : f.siblingReferenceCheck ref c with
+    | true => rfl
+    | false => rw [insertBefore_unfold] at hok; simp [hsc, h] at hok
+  obtain ⟨q, vq, A, kr, B, t, sq, ekr, hkrn, hrc, hgc, hqt, hnorm, hndoc, hvq⟩ := sibling_checks_unpack nd hsc hsr
+  subst ekr
+  exact specMove_content_keep inv norm hgc sq hqt hvq _ (by
+    simp only [Dest.site]; exact Forest.parent?_of_ctx sq.ctx)
+
+end XotModel
